@@ -29,6 +29,7 @@
 #include <vf/hooks.hpp>
 #include <vf/hcycle.hpp>
 #include <omp.h>
+#include <sys/resource.h>
 
 using vf::Csr; using vf::J; using vf::Rng; using vf::Case;
 typedef amgcl::backend::builtin<double> Backend;
@@ -140,7 +141,10 @@ static bool check_galerkin(Case &c, const Ev &e, double alpha, bool exact, const
 // R is the exact transposed copy of P
 static bool is_transpose(const Mat &P, const Mat &R) {
     if (R.nrows != P.ncols || R.ncols != P.nrows || R.nnz != P.nnz) return false;
-    Csr<double> Pc = canon(P), Rt = vf::transpose(canon(R)); return same(Pc, Rt);
+    typedef std::tuple<ptrdiff_t, ptrdiff_t, uint64_t> T; std::vector<T> a, b; auto bits = [](double v) { uint64_t u; std::memcpy(&u, &v, 8); return u; };
+    for (size_t i = 0; i < P.nrows; ++i) for (auto j = P.ptr[i]; j < P.ptr[i + 1]; ++j) a.emplace_back((ptrdiff_t)i, (ptrdiff_t)P.col[j], bits(P.val[j]));
+    for (size_t i = 0; i < R.nrows; ++i) for (auto j = R.ptr[i]; j < R.ptr[i + 1]; ++j) b.emplace_back((ptrdiff_t)R.col[j], (ptrdiff_t)i, bits(R.val[j]));
+    std::sort(a.begin(), a.end()); std::sort(b.begin(), b.end()); return a == b;
 }
 
 //---------------------------------------------------------------------------
@@ -177,7 +181,7 @@ static Cfg draw(Rng &r, const std::string &coars, const std::string &relax, size
             if (coars == "smoothed_aggregation") { if (r.coin()) c.putd("coarsening.relax", r.uni(0.3, 1.5)); if (r.coin(0.4)) { c.putb("coarsening.estimate_spectral_radius", true); c.puti("coarsening.power_iters", r.coin() ? 0 : (long)r.range(1, 8)); } }
             if (block == 1 && r.coin(0.2) && n >= 8) { int nc = (int)r.range(1, 2); auto B = std::make_shared<std::vector<double>>(n * nc);   // near null space: constant (+ a smooth ramp)
                 for (size_t i = 0; i < n; ++i) { (*B)[i * nc] = 1.0; if (nc > 1) (*B)[i * nc + 1] = (double)i / n + 0.01 * r.uni(-1, 1); }
-                c.set_nullspace(nc, B, n); } }
+                c.set_nullspace(nc, B, n); if (!c.max_levels) c.set_max_levels(10); } }   // guard: with near-null-space vectors a level may fail to shrink (reported by the size oracle); never let the hierarchy run away
         if (r.coin(0.15)) c.putb("allow_rebuild", true);
     }
     if (relax == "ilut") { c.puti("relax.p", r.range(1, 3)); c.putd("relax.tau", 1e-2); }
@@ -193,7 +197,7 @@ template <class AMG> static std::string sizes(AMG &a) { std::string s; for (auto
 // probe of the action: unit vectors (all when n <= 150) and random vectors; the bit pattern of all results
 template <class AMG> static std::vector<double> probe(const AMG &a, size_t n, uint64_t seed) {
     Rng r(seed); std::vector<double> out, f(n), x(n); std::vector<size_t> units;
-    if (n <= 150) for (size_t j = 0; j < n; ++j) units.push_back(j); else for (int k = 0; k < 12; ++k) units.push_back(r.next() % n);
+    if (n <= (size_t)vf::opt_int("probe_all_below", 150)) for (size_t j = 0; j < n; ++j) units.push_back(j); else for (int k = 0; k < 12; ++k) units.push_back(r.next() % n);
     for (size_t j : units) { std::fill(f.begin(), f.end(), 0.0); f[j] = 1; a.apply(f, x); out.insert(out.end(), x.begin(), x.end()); }
     for (int k = 0; k < 6; ++k) { for (auto &v : f) v = r.uni(-1, 1); a.apply(f, x); out.insert(out.end(), x.begin(), x.end()); }
     return out;
@@ -210,6 +214,8 @@ static bool check_build(Case &c, AMGrec &a, const Cfg &cfg, const Csr<double> &A
     const std::string &tag = cfg.coars; auto &lv = amgcl::verif::access::levels(a);
     // split the tape
     std::vector<const Ev*> T, C; bool order_ok = true; int expect = 0;
+    // a library may decline a coarsening step whose result is empty or not smaller than the fine level (same effect as an empty level)
+    if (!g_tape.empty() && g_tape.back().kind == 0 && (g_tape.back().P->ncols == 0 || g_tape.back().P->ncols >= g_tape.back().A->nrows)) { g_tape.pop_back(); out.ended_empty = true; vf::obs_sum("declined_non_shrinking_steps"); }
     for (auto &e : g_tape) { if (e.kind == 2) { out.ended_empty = true; if (expect != 0) order_ok = false; expect = 3; continue; } if (e.kind != expect) order_ok = false; if (e.kind == 0) { T.push_back(&e); expect = 1; } else { C.push_back(&e); expect = 0; } }
     if (!c.check(order_ok && T.size() == C.size(), "policy:call-protocol:" + tag, "amg did not call transfer_operators / coarse_operator alternately", J().n("transfer_calls", T.size()).n("coarse_calls", C.size()))) return false;
     size_t m = T.size(), L = lv.size();
@@ -480,6 +486,9 @@ static void sub_nullspace_degenerate() {
 
 int main(int argc, char **argv) {
     vf::init(argc, argv);
+#if !defined(__SANITIZE_ADDRESS__)
+    { struct rlimit rl; rl.rlim_cur = rl.rlim_max = (rlim_t)8 << 30; setrlimit(RLIMIT_AS, &rl); }   // a runaway hierarchy must end in bad_alloc, not in the OOM killer
+#endif
     vf::obs_add("threads_seen", std::to_string(omp_get_max_threads()));
     vf::obs_add("spgemm_algorithm", omp_get_max_threads() > 16 ? "rmerge" : "saad");
     if (vf::sub_enabled("hier")) sub_hier();
